@@ -12,6 +12,8 @@
 #include <thread>
 #include <set>
 #include <algorithm>
+#include <unistd.h>
+#include <sys/wait.h>
 #include "vjson.h"
 
 using namespace asmjit;
@@ -380,6 +382,67 @@ static void run_gen(FILE* out, unsigned rounds, unsigned nthreads, uint64_t seed
   }
 }
 
+// ---- cold start: threads racing on the very FIRST use of the host information -------------------------------
+// Each trial runs in a forked child (the host information is cached in function-local statics). The threads of a
+// child create their own JitRuntime at the same moment, before anything called CpuInfo::host(); what each of them
+// obtained (CPU features, hints, vendor/family, hardware threads) is compared with what the process sees once
+// everything has settled ("every thread obtains the code it would obtain alone": code generation is a function of
+// this information). Plain build only: the pinned tree initialises the static with a benign same-value race.
+static uint64_t host_view_digest(const JitRuntime& rt) {
+  uint64_t h = 1469598103934665603ull;
+  auto mix = [&](uint64_t v) { h = (h ^ v) * 1099511628211ull; };
+  const CpuFeatures& f = rt.cpu_features();
+  for (size_t i = 0; i < CpuFeatures::kNumBitWords; i++) mix(uint64_t(f.data<CpuFeatures::Data>().bits()[i]));
+  mix(uint64_t(rt.cpu_hints()));
+  mix(uint64_t(rt.environment().arch()));
+  return h;
+}
+static void run_cold(FILE* out, unsigned trials, unsigned nthreads) {
+  vj::W w;
+  w.beginObj().kv("e", "Reset").kv("threads", nthreads).kv("mode", "cold").endObj().emit(out);
+  fflush(out);
+  for (unsigned tr = 0; tr < trials; tr++) {
+    int fd[2];
+    if (pipe(fd) != 0) return;
+    pid_t pid = fork();
+    if (pid == 0) {
+      close(fd[0]);
+      std::vector<uint64_t> seen(nthreads, 0);
+      std::vector<std::thread> th;
+      std::atomic<unsigned> ready{0};
+      std::atomic<int> go{0};
+      for (unsigned t = 0; t < nthreads; t++) th.emplace_back([&, t] {
+        ready.fetch_add(1);
+        while (!go.load(std::memory_order_acquire)) {}
+        for (unsigned spin = 0; spin < t * 40u; spin++) { asm volatile("" ::: "memory"); }     // stagger the arrivals a little
+        JitRuntime rt;
+        seen[t] = host_view_digest(rt);
+      });
+      while (ready.load() < nthreads) {}
+      go.store(1, std::memory_order_release);
+      for (auto& t : th) t.join();
+      JitRuntime solo;
+      uint64_t ref = host_view_digest(solo);
+      std::vector<uint64_t> msg(seen); msg.push_back(ref);
+      ssize_t n = write(fd[1], msg.data(), msg.size() * sizeof(uint64_t)); (void)n;
+      _exit(0);
+    }
+    close(fd[1]);
+    std::vector<uint64_t> msg(nthreads + 1, 0);
+    size_t got = 0; char* p = reinterpret_cast<char*>(msg.data());
+    while (got < msg.size() * sizeof(uint64_t)) { ssize_t n = read(fd[0], p + got, msg.size() * sizeof(uint64_t) - got); if (n <= 0) break; got += size_t(n); }
+    close(fd[0]);
+    int st = 0; waitpid(pid, &st, 0);
+    bool complete = got == msg.size() * sizeof(uint64_t) && WIFEXITED(st) && WEXITSTATUS(st) == 0;
+    for (unsigned t = 0; t < nthreads; t++) {
+      uint64_t c = complete ? msg[t] : 0, s = complete ? msg[nthreads] : 1;
+      w.beginObj().kv("e", "Gen").kv("t", t + 1).kv("prog", 9).kv("seed", (long long)tr)
+        .kv("conc", (long long)(c & 0x3FFFFFFF)).kv("solo", (long long)(s & 0x3FFFFFFF)).kv("equal", c == s).endObj().emit(out);
+    }
+    fflush(out);
+  }
+}
+
 int main(int argc, char** argv) {
   if (argc < 5) return 3;
   std::string mode = argv[1];
@@ -392,6 +455,8 @@ int main(int argc, char** argv) {
     for (unsigned x = 0; x < nexec; x++) run_alloc_exec(out, nthreads, nops, seed, x);
   } else if (mode == "gen") {
     run_gen(out, (unsigned)atoi(argv[3]), (unsigned)atoi(argv[4]), seed);
+  } else if (mode == "cold") {
+    run_cold(out, (unsigned)atoi(argv[3]), (unsigned)atoi(argv[4]));
   }
   fclose(out);
   return 0;
